@@ -2049,7 +2049,8 @@ BUILTIN_FUNCS = {
     "opos": sp_opos,
     "choose": gh_choose, "map_set_all": gh_map_set_all,
     "map_put": sp_map_put, "map_del": sp_map_del, "perm_of": sp_perm_of, "enc_eq": sp_enc_eq,
-    "is_str": (lambda I, args, kw: VBool(isinstance(I.force(args[0]) if not I.spec else args[0], VStr))),
+    "is_str": (lambda I, args, kw: VBool(D.is_str(args[0].e)) if isinstance(args[0], VDyn) else
+               VBool(isinstance(I.force(args[0]) if not I.spec else args[0], VStr))),
     "lemma_pigeonhole": gh_lemma_pigeonhole, "int_parses": sp_int_parses, "int_value": sp_int_value,
     "nan": sp_nan, "is_nan": sp_is_nan,
     "len": bi_len, "int": bi_int, "float": bi_float, "bool": bi_bool, "str": bi_str, "abs": bi_abs,
